@@ -8,7 +8,9 @@ from . import core, gen
 STRICT = ["gt", "ge", "lt", "le", "const", "enum", "regex", "decimal_places", "multiple_of", "max_digits",
           "length", "max_length", "min_length", "unique_items"]
 LAX = ["ge", "le", "const", "enum", "decimal_places", "multiple_of", "max_digits", "length", "max_length", "unique_items"]
-REGEXES = ["[0-9]+", "a*b?", "[a-z]{2,3}", ".*", "-?[0-9]+(\\.[0-9]+)?", "(true|false)", "x"]
+REGEXES = ["[0-9]+", "a*b?", "[a-z]{2,3}", ".*", "-?[0-9]+(\\.[0-9]+)?", "(true|false)", "x",
+           # a whole-string match that needs backtracking past the first successful prefix match
+           "a|ab", "ab?|abc", "[0-9]+?", "(a|ab)(c|bcd)?"]
 
 
 def gen_case(rng):
